@@ -97,17 +97,16 @@ def setAt (j : J) : List String → J → Option J
 
 def refNode (ref : String) : J := .obj [("$ref", .str ref)]
 
-/-- `UpdateRef(sp, key, ref)`: a `spec.Schema` value (element of a map or slice) is replaced by
-    `{$ref}`; behind a pointer (`*Schema`, `*SchemaOrArray`, `*SchemaOrBool`) only `.Ref` is set and
-    the other fields stay -/
+/-- `UpdateRef(sp, key, ref)`: only `.Ref` is set and the other fields stay, behind a pointer (`*Schema`,
+    `*SchemaOrArray`, `*SchemaOrBool`) as well as for a `spec.Schema` value (element of a map or slice), which
+    is stored back into its container with the new `$ref` -/
 def updateRef (d : J) (key ref : String) : Outcome J :=
   let toks := keyTokens key
   match walk .swagger d toks with
   | none => .err "pointer does not resolve"
   | some (node, kind) =>
     match kind with
-    | .schemaVal => (match setAt d toks (refNode ref) with | some d' => .ok d' | none => .err "no parent")
-    | .schemaPtr | .notPtr | .schemaOrArray | .schemaOrBool =>
+    | .schemaVal | .schemaPtr | .notPtr | .schemaOrArray | .schemaOrBool =>
       (match setAt d toks (node.set "$ref" (.str ref)) with | some d' => .ok d' | none => .err "no parent")
     | _ => .err "no schema with ref"
 
